@@ -9,29 +9,35 @@ and deser(ser v) = v on the implementation itself.
 """
 import base64
 import json
+import math
 import os
+import re
+import struct
 import sys
 import time
+import unicodedata
+from decimal import Decimal
+from fractions import Fraction
 
 sys.set_int_max_str_digits(0)  # the harness itself prints huge ints; the implementation subprocess keeps the default
 
 from common import (Check, coq_bad_indices, run_impl, standard_proof_step, TRUSTED_COMMON, ROOT)
 from coqterm import cZ, cstr, cbool, copt, clist, cbytes
 
-IMPORTS = ("From XV Require Import Base.Str Base.Eqb Model.ConvBool Model.ConvInt Model.ConvBytes Model.ConvFactory "
-           "Model.ConvAll Model.ConvCorr Spec.XsdPrims.")
+IMPORTS = ("From XV Require Import Base.Str Base.Eqb Model.ConvBool Model.ConvInt Model.ConvBytes Model.ConvDecimal "
+           "Model.ConvQName Model.ConvFloat Model.ConvEnum Model.ConvFactory Model.ConvAll Model.ConvGuards Model.ConvCorr Spec.XsdPrims.")
 WS = " \t\n\r"
 PYWS = "\x0b\x0c\x1c\x1d\x1e\x1f\x85\xa0      　"
 LAX = "+-_ .eE0159١٢２² \t\n\x1c\xa0"
 
 
-def coq_bad(tag, ctype, pred, terms, workers=16):
+def coq_bad(tag, ctype, pred, terms, workers=12, defs=""):
     """coq_bad_indices with the cases spread over `workers` shards of balanced size
     (large terms — 4300-digit numbers — would otherwise pile up in one shard)"""
     n = len(terms)
     if n == 0:
         return []
-    k = min(workers, max(1, n // 8))
+    k = min(workers, max(1, n // 40))
     size = -(-n // k)
     order = sorted(range(n), key=lambda i: -len(terms[i]))
     buckets = [[] for _ in range(k)]
@@ -43,7 +49,7 @@ def coq_bad(tag, ctype, pred, terms, workers=16):
     perm = [i for b in buckets for i in b]
     # buckets may be shorter than `size` only at the end: pad by re-flowing
     perm_terms = [terms[i] for i in perm]
-    bad = coq_bad_indices(tag, IMPORTS, "", ctype, pred, perm_terms, shard=size)
+    bad = coq_bad_indices(tag, IMPORTS, defs, ctype, pred, perm_terms, shard=size)
     return sorted(perm[i] for i in bad)
 
 
@@ -160,7 +166,285 @@ def inject_ws(r, s, chars=WS, p=0.15):
     return "".join(out)
 
 
-TYPE_POOL = ["int", "bool", "str", "bytes", "object", "Unreg0", "Unreg1"]
+
+# ---------------------------------------------------------------- Decimal
+def g_digits(r, lo=1, hi=400):
+    n = r.choice([1, 1, 2, 3, 5, 9, 17, 18, 19, 20, 40]) if r.random() < 0.8 else r.randint(lo, hi)
+    return "".join(r.choice("0123456789") for _ in range(n))
+
+
+def g_dec_value(r):
+    k = r.random()
+    if k < 0.08:
+        return r.choice([[0, "0", "F"], [1, "0", "F"], [0, "", "n"], [1, "", "n"], [0, "", "N"], [0, "123", "n"], [1, "7", "N"]])
+    ds = g_digits(r).lstrip("0") or "0"
+    if r.random() < 0.15:
+        ds = "0"
+    e = r.choice([0, 0, -1, -2, -3, 1, 2, 3, -len(ds), -len(ds) - 1, -len(ds) + 1, r.randint(-400, 400), r.randint(-30, 30)])
+    return [r.choice([0, 0, 1]), ds, e]
+
+
+def g_decimal_sp(r):
+    sign = r.choice(["", "", "+", "-"])
+    k = r.random()
+    ip = g_digits(r, 1, 400) if k < 0.85 else ""
+    if k >= 0.85:
+        fp = g_digits(r)
+    else:
+        fp = r.choice([None, None, "", g_digits(r), g_digits(r, 1, 400), "0", "000", "50"])
+    if r.random() < 0.2:
+        ip = "0" * r.randint(1, 4) + ip
+    return sign, ip, fp
+
+
+def dec_sp_lex(sp):
+    sign, ip, fp = sp
+    return sign + ip + ("" if fp is None else "." + fp)
+
+
+SIGN = {"": "SgNone", "+": "SgPlus", "-": "SgMinus"}
+
+
+def dec_sp_term(sp):
+    sign, ip, fp = sp
+    return f"(mk_decimal_sp {SIGN[sign]} {cstr(ip)} {copt(fp, cstr)})"
+
+
+def hexN(n):
+    return f"({hex(n)})%N"
+
+
+def pydec_term(v):
+    """[sign, digits, exp] (as_tuple) -> Model.ConvDecimal.pydec term"""
+    sign, ds, e = v
+    if e == "F":
+        return f"(DInf {cbool(sign)})"
+    if e in ("n", "N"):
+        return f"(DNaN {cbool(sign)} {cbool(e == 'N')} {hexN(int(ds or '0'))})"
+    return f"(DFin {cbool(sign)} {hexN(int(ds or '0'))} {cZ(e)})"
+
+
+DEC_BAD = ["", " ", ".", "+", "-", "e5", "1e", "1e+", "1e5.", "1.2.3", "1ee5", "++1", "+-1", "1 5", "1 .5", "\x001", "1\x00", "NaN", "nan", "-NaN",
+           "sNaN", "snan12", "NaN123", "NaN0", "NaN007", "nanx", "Inf", "inf", "-Infinity", "INFINITY", "iNf", "infinit", "infinityx", "in_f",
+           "I_N_F", "n_an", "1_0", "_1", "1_", "1__0", "_", "1e_5", "1_e5", "+_1", "_._5", "١٢", "１２.５", "1١", "٣e٢", "1\xa05", "\xa01\xa0",
+           "\x1c1", "1\x85", "1 5", "1e+5", "1E-5", "1e05", "5.", ".5", "0e0", "-0", "-0.0", "+0.00", "00.10", "1e400", "1e-400",
+           "1e999999999999999999", "1e1000000000000000000", "0e999999999999999999", "0e1000000000000000000", "1e-1999999999999999997",
+           "1e-1999999999999999998", "0e-1999999999999999998", "1e99999999999999999999999", "0e-99999999999999999999999",
+           "1.5e-1999999999999999996", "1.5e-1999999999999999997", "10e999999999999999998", "10e999999999999999999",
+           "00e999999999999999999", "0.0e1000000000000000000", "1,5", "0x10", "1.5f", "1d5", "²", "1²", "é", "1\ud800"]
+
+# ---------------------------------------------------------------- QName
+LOCALS = ["a", "x", "local", "A1", "a.b", "a-b", "a_b", "_a", "a·b", "été", "ü", "Ωmega", "名前", "a1-2.3_4", "int", "type", "a\u0301", "e\u0301t",
+          "a\u203fb", "a\u0387", "a\u0660", "\u3001x", "\u2070a", "a\u2070", "\u00aa", "a\u00b2", "a\u200c", "a\u0300\u0301", "x\u036f", "\u00c0\u00d6",
+          "a\u0e31", "a\u093e", "nb\u0951", "k\u30fc"]
+BAD_LOCALS = ["", "1a", "-a", ".a", "a b", "a:b", "a\tb", " a", "a ", "a}", "{a", "a\xa0", "²", "a/b", "a#"]
+URIS = ["urn:a", "urn:b", "http://example.com/ns", "http://www.w3.org/2001/XMLSchema", "http://www.w3.org/2001/XMLSchema-instance",
+        "http://www.w3.org/XML/1998/namespace", "http://www.w3.org/1999/xlink", "urn:x-y", "a", "foo", "http://a/b#c", "urn:ü", "a b", "urn:a}b",
+        "abc\n", "#f", "a#", "http://x.y/z?q=1&r=2", "a\\b", "urn:a^b", "mailto:x@y.z", "//host/p", "///p", "////p", "x+y:z", "1a:b", "a:b:c",
+        "http://[::1]/", "{u", "u:a~b!c*d'(e)%20", "a\nb", "\n", "#", "a##b", "http://a/%zz", "urn:isbn:0-395-36341-1"]
+PREFIXES = ["a", "p", "xs", "xsi", "ns0", "ns1", "ns2", "pre.fix", "p-q", "_p", "é"]
+BAD_PREFIXES = ["", "a:b", " p", "p ", "{p", "1p", "a b"]
+
+
+def g_nsmap(r, want_uri=None):
+    """a prefix map as a list of [prefix|None, uri] with distinct keys, or None"""
+    k = r.random()
+    if k < 0.2:
+        return None
+    m = []
+    n = r.choice([0, 0, 1, 1, 2, 3, 4])
+    keys = set()
+    for _ in range(n):
+        p = r.choice(PREFIXES + [None, None]) if r.random() < 0.92 else r.choice(BAD_PREFIXES)
+        if p in keys:
+            continue
+        keys.add(p)
+        u = r.choice(URIS[:8]) if r.random() < 0.9 else r.choice(URIS + [""])
+        m.append([p, u])
+    if want_uri is not None and r.random() < 0.6 and not any(u == want_uri for _, u in m):
+        p = r.choice(PREFIXES + [None])
+        if p not in keys:
+            m.insert(r.randrange(len(m) + 1), [p, want_uri])
+    return m
+
+
+def nsmap_term(m):
+    if m is None:
+        return "None"
+    return "(Some " + clist(m, lambda e: f"({copt(e[0], cstr)}, {cstr(e[1])})", "(option str * str)") + ")"
+
+
+def nsmap_term_plain(m):
+    return clist(m, lambda e: f"({copt(e[0], cstr)}, {cstr(e[1])})", "(option str * str)")
+
+
+def qtext(uri, local):
+    return "{%s}%s" % (uri, local) if uri else local
+
+
+QNAME_BAD = ["", " ", "a:", ":a", ":", "a:b:c", " a : b", "a :b", "a: b", "{u}x y", "{u}", "{}x", "{u", "u}x", "{{u}}x", "{u}{v}x", "{u}x}",
+             "{a b}x", "{urn:a-b}x", "{urn:a}x", " {urn:a}x ", "{urn:a}\nx", "{urn:a\n}x", "{\n}x", "{#f}x", "{a#}x", "{urn:a}1x", "{urn:a}x:y",
+             "\xa0a:b\x1c", "a:b\n", "xs:int", "xsi:type", "p:a\u0301", "p:\u00aa", "a\u0301", "ª", "1a", "-a", "p:1a", "p: a", "p:a b", "é:é", "p:名前",
+             "{http://www.w3.org/2001/XMLSchema-instance}type", "{http://www.w3.org/2001/XMLSchema}int", "ns0:a", "unk:a", "{urn:a}", "{urn:a}\u0301"]
+
+# ---------------------------------------------------------------- float
+def g_float(r):
+    k = r.random()
+    if k < 0.12:
+        return r.choice([0.0, -0.0, 1.0, -1.0, 0.1, 1e22, 1e23, 1e16, 1e15, 9007199254740993.0, 5e-324, 2.2250738585072014e-308,
+                         2.225073858507201e-308, 1.7976931348623157e308, 1e-5, 1e-4, 123456789.123, 0.30000000000000004, 1e21, 1e-7,
+                         3.402823466e38, -1.175494351e-38, 1.175494351e-38, 1.5, 100.0, 1e100, 4.9e-324])
+    if k < 0.16:
+        return r.choice([float("inf"), float("-inf"), float("nan")])
+    if k < 0.6:
+        return struct.unpack("<d", struct.pack("<Q", r.getrandbits(64)))[0]
+    if k < 0.8:
+        return r.uniform(-1000, 1000)
+    return r.choice([1, -1]) * r.random() * 10.0 ** r.randint(-320, 308)
+
+
+def fenc(x):
+    return {"t": "float", "v": x.hex() if x == x and abs(x) != float("inf") else repr(x)}
+
+
+def g_double_sp(r):
+    k = r.random()
+    if k < 0.06:
+        return ("inf", r.choice(["", "+", "-"]))
+    if k < 0.09:
+        return ("nan",)
+    sign, ip, fp = g_decimal_sp(r)
+    ip, fp = ip[:r.choice([1, 3, 20, 400])], (None if fp is None else fp[:r.choice([1, 3, 20, 400])])
+    if not ip and not fp:
+        ip = "0"
+    ex = None
+    if r.random() < 0.6:
+        ex = (r.random() < 0.5, r.choice(["", "+", "-"]), str(r.choice([0, 1, 5, 22, 307, 308, 309, 324, 400, r.randint(0, 30)])).zfill(r.choice([1, 1, 2, 3])))
+    return ("num", (sign, ip, fp), ex)
+
+
+def double_sp_lex(d):
+    if d[0] == "inf":
+        return d[1] + "INF"
+    if d[0] == "nan":
+        return "NaN"
+    _, m, ex = d
+    return dec_sp_lex(m) + ("" if ex is None else ("E" if ex[0] else "e") + ex[1] + ex[2])
+
+
+def double_sp_term(d):
+    if d[0] == "inf":
+        return f"(DbInf {SIGN[d[1]]})"
+    if d[0] == "nan":
+        return "DbNaN"
+    _, m, ex = d
+    et = "None" if ex is None else f"(Some (mk_exp_sp {cbool(ex[0])} {SIGN[ex[1]]} {cstr(ex[2])}))"
+    return f"(DbNum {dec_sp_term(m)} {et})"
+
+
+FLOAT_BAD = ["1e", "1e+", "1_0", "1__0", "_1", "1_", "1_.5", "1._5", "1e_5", "1e1_0", "1_0.0_1e1_0", "\x1c1", " 1 ", "1\xa0", "\xa0 1", "١٢", "1٢", "in_f", "nan",
+             "-nan", "+NaN", "nan1", "infinity", "-Infinity", "Infinit", "inf", "+inf", "INFINITY", "1 2", "0x1p3", "1.", ".", ".5e1", "1E+05", "١e٢", "1\x00",
+             "é", "", "  ", "1e5 ", "+ 1", "--1", "1ee5", "1.2.3", "1e5.0", "1e400", "1e-400", "-1e-400", "0e999999999", "1d5", "1f", "1L", "1,5", "１.５",
+             "٣.١٤", "1　", "\t1\n", "\x0b1\x0c", "1\x85", "-.5", "+.5e-3", "-0", "-0.0", "00.1", "9007199254740993", "0.1e1_", "1e+_5", "_", "1e٥"]
+
+
+def float_reading(s):
+    """an independent reading of a text float() accepted: normalise, then Decimal"""
+    t = "".join(str(unicodedata.decimal(c)) if c.isdecimal() else c for c in s).strip().replace("_", "")
+    low = t.lower()
+    if "inf" in low:
+        return ("inf", t.startswith("-"))
+    if "nan" in low:
+        return ("nan", t.startswith("-"))
+    mt = re.fullmatch(r"([+-]?)([0-9]*)(?:\.([0-9]*))?(?:[eE]([+-]?[0-9]+))?", t)
+    ip, fp, ex = mt.group(2), mt.group(3) or "", int(mt.group(4) or "0")
+    return ("fin", 1 if mt.group(1) == "-" else 0, int(ip + fp), ex - len(fp))
+
+
+def reading_round(rd):
+    if rd[0] == "inf":
+        return float("-inf") if rd[1] else float("inf")
+    if rd[0] == "nan":
+        return float("nan")
+    _, sign, c, e = rd
+    if c == 0:
+        return -0.0 if sign else 0.0
+    if abs(e) > 5000:
+        x = float("inf") if e > 0 else 0.0
+        return -x if sign else x
+    fr = Fraction(c) * (Fraction(10) ** e)
+    try:
+        x = float(fr)
+    except OverflowError:
+        x = float("inf")
+    return -x if sign else x
+
+
+def fsyn_term(rd):
+    if rd is None:
+        return "None"
+    if rd[0] == "inf":
+        return f"(Some (FsInf {cbool(rd[1])}))"
+    if rd[0] == "nan":
+        return f"(Some (FsNan {cbool(rd[1])}))"
+    return f"(Some (FsFin {cbool(rd[1])} {hexN(rd[2])} {cZ(rd[3])}))"
+
+
+# ---------------------------------------------------------------- enums
+def atom_term(v):
+    t, x = v["t"], v["v"]
+    if t == "str":
+        return f"(AStr {cstr(x)})"
+    if t == "int":
+        return f"(AInt {hexZ(zval(x))})"
+    if t == "bool":
+        return f"(ABool {cbool(x)})"
+    if t == "Decimal":
+        return f"(ADec {pydec_term(x)})"
+    if t == "QName":
+        return f"(AQName {cstr(x)})"
+    raise ValueError(t)
+
+
+def evalue_term(v):
+    if v["t"] == "tuple":
+        return f"(EvTuple {clist(v['v'], atom_term, 'atom')})"
+    if v["t"] == "list":
+        return f"(EvList {clist(v['v'], atom_term, 'atom')})"
+    return f"(EvAtom {atom_term(v)})"
+
+
+def enum_def_term(members):
+    return clist(members, lambda m: f"({cstr(m[0])}, {evalue_term(m[1])})", "(str * evalue)")
+
+
+def S_(x):
+    return {"t": "str", "v": x}
+
+
+def I_(x):
+    return {"t": "int", "v": hex(x)}
+
+
+ENUMS = [
+    [["A", S_("a")], ["B", S_("b c")], ["C", S_("x  y")], ["D", S_("d")], ["E", S_("")], ["F", S_("1")], ["G", S_("true")]],
+    [["A", S_(" lead")], ["B", S_("trail ")], ["C", S_("a\tb")], ["D", S_("ok")], ["E", S_("a b")]],
+    [["ONE", I_(1)], ["TWO", I_(2)], ["NEG", I_(-7)], ["BIG", I_(2 ** 70)], ["ZERO", I_(0)]],
+    [["T", {"t": "bool", "v": True}], ["F", {"t": "bool", "v": False}]],
+    [["AB", {"t": "tuple", "v": [S_("a"), S_("b")]}], ["N12", {"t": "tuple", "v": [I_(1), I_(2)]}], ["ONE", {"t": "tuple", "v": [S_("z")]}],
+     ["EMPTY", {"t": "tuple", "v": []}]],
+    [["PQ", {"t": "list", "v": [S_("p"), S_("q")]}], ["N", {"t": "list", "v": [I_(3), I_(4), I_(5)]}]],
+    [["D1", {"t": "Decimal", "v": [0, "150", -2]}], ["D2", {"t": "Decimal", "v": [1, "2", 0]}], ["D3", {"t": "Decimal", "v": [0, "1", 3]}]],
+    [["Q1", {"t": "QName", "v": "{urn:a}b"}], ["Q2", {"t": "QName", "v": "c"}], ["Q3", {"t": "QName", "v": "{http://www.w3.org/2001/XMLSchema}int"}]],
+    [["S", S_("1")], ["I", I_(10)], ["M", {"t": "tuple", "v": [S_("1"), I_(0)]}]],
+]
+ENUM_STRINGS = ["a", "b c", " b   c ", "b\tc", "x  y", "x y", "d", "", " ", "1", "true", " lead", "lead", "trail ", "trail", "a\tb", "a b", "ok", "2", " 2 ", "02",
+                "+2", "-7", "1_0", "١", str(2 ** 70), "0", "-0", "false", "0", "TRUE", "a b ", "1 2", "1  2", "01 2", "z", "p q", "3 4 5", "3 4", "1.50", "1.5",
+                "15e-1", "-2", "-2.0", "1000", "1e3", "1E+3", "{urn:a}b", "n:b", "c", "xs:int", "{http://www.w3.org/2001/XMLSchema}int", "1 0", "10", "1 00",
+                "a  b", "nope", "1 2 3", "\xa0a\xa0"]
+
+FACTORY_ENUMS = [ENUMS[0], ENUMS[1], ENUMS[2], ENUMS[3]]
+TYPE_POOL = ["int", "bool", "str", "bytes", "object", "Unreg0", "Unreg1", "float", "Decimal", "QName", "Enum:0", "Enum:2", "Enum:3"]
 
 
 def ty_term(name):
@@ -171,8 +455,8 @@ def ty_term(name):
     return f"(TName {cstr(name)})"
 
 
-def value_term(v):
-    """impl-encoded value -> Model.ConvAll.value term"""
+def value_term(v, src=None, enums=None):
+    """impl-encoded value -> Model.ConvAll.value term (src: the input text, for floats)"""
     t, x = v["t"], v["v"]
     if t == "int":
         return f"(VInt {hexZ(zval(x))})"
@@ -182,11 +466,20 @@ def value_term(v):
         return f"(VStr {cstr(x)})"
     if t in ("bytes", "XmlHexBinary", "XmlBase64Binary"):
         return f"(VBytes BPlain {cbytes(bytes(x))})"
+    if t == "Decimal":
+        return f"(VDec {pydec_term(x)})"
+    if t == "QName":
+        return f"(VQName {cstr(x)})"
+    if t == "float":
+        return "(VFloat " + fsyn_term(float_reading(src))[6:-1] + ")"
+    if t == "Enum":
+        names = [m[0] for m in enums[x[0]]]
+        return f"(VEnum {x[0]}%nat {names.index(x[1])}%nat)"
     raise ValueError(t)
 
 
-def kw_term(fmt):
-    return f"(mk_kwargs {copt(fmt, cstr)})"
+def kw_term(fmt, nsm=None):
+    return f"(mk_kwargs {copt(fmt, cstr)} {nsmap_term(nsm)})"
 
 
 def run(ck: Check):
@@ -257,18 +550,98 @@ def run(ck: Check):
         for fmt in (None, "x", "BASE16", "base32"):
             add({"op": "deser", "types": ["bytes"], "s": s, "format": fmt}, kind="other_fmt_deser")
 
+    # ---------------- Decimal
+    for _ in range(150 * N):
+        sp = g_decimal_sp(r)
+        a, b = ws(r), ws(r)
+        add({"op": "deser", "types": ["Decimal"], "s": a + dec_sp_lex(sp) + b}, kind="dec_deser", sp=(a, sp, b))
+    for x in DEC_BAD:
+        add({"op": "deser", "types": ["Decimal"], "s": x}, kind="dec_deser", sp=None)
+    for _ in range(150 * N):
+        x = dec_sp_lex(g_decimal_sp(r))[:r.choice([4, 10, 40, 500])]
+        if r.random() < 0.4:
+            x += r.choice("eE") + r.choice(["", "+", "-"]) + str(r.randint(0, 400))
+        x = mutate(r, x, LAX + "nNaAiIfFsS")
+        if r.random() < 0.25:
+            x = r.choice(PYWS + WS) + x + r.choice(PYWS + WS)
+        add({"op": "deser", "types": ["Decimal"], "s": x}, kind="dec_deser", sp=None)
+    for _ in range(150 * N):
+        v = g_dec_value(r)
+        add({"op": "roundtrip", "type": "Decimal", "v": {"t": "Decimal", "v": v}}, kind="dec_ser", v=v)
+
+    # ---------------- QName
+    for _ in range(120 * N):
+        uri = r.choice(URIS[:8])
+        m = g_nsmap(r, uri) or []
+        bound = [p for p, u in m if p]
+        k = r.random()
+        prefix = r.choice(bound) if bound and k < 0.6 else (None if k < 0.85 else r.choice(PREFIXES))
+        local = r.choice(LOCALS)
+        a, b = ws(r), ws(r)
+        lex = (prefix + ":" if prefix is not None else "") + local
+        add({"op": "deser", "types": ["QName"], "s": a + lex + b, "ns_map": m}, kind="qname_deser", sp=(a, prefix, local, b), m=m)
+    for _ in range(100 * N):
+        x = r.choice(QNAME_BAD) if r.random() < 0.6 else mutate(r, r.choice(["p:local", "{urn:a}b", "xs:int", "a"]), "{}: \n-_.#é́")
+        m = g_nsmap(r, "urn:a")
+        add({"op": "deser", "types": ["QName"], "s": x, "ns_map": m}, kind="qname_deser", sp=None, m=m)
+    for _ in range(40 * N):
+        x = "{" + r.choice(URIS) + "}" + r.choice(LOCALS + BAD_LOCALS)
+        add({"op": "deser", "types": ["QName"], "s": x, "ns_map": None}, kind="qname_deser", sp=None, m=None)
+    for _ in range(180 * N):
+        uri = r.choice([None, None] + URIS[:8] * 3 + URIS)
+        local = r.choice(LOCALS) if r.random() < 0.93 else r.choice(BAD_LOCALS[1:])
+        m = g_nsmap(r, uri)
+        add({"op": "roundtrip", "type": "QName", "v": {"t": "QName", "v": qtext(uri, local)}, "ns_map": m}, kind="qname_ser", uri=uri, local=local, m=m)
+        add({"op": "ser", "v": {"t": "QName", "v": qtext(uri, local)}, "ns_map": m}, kind="qname_ser2", uri=uri, local=local, m=m)
+
+    # ---------------- float
+    for _ in range(200 * N):
+        x = g_float(r)
+        add({"op": "float_facts", "x": fenc(x)["v"]}, kind="float_facts", x=x)
+        add({"op": "roundtrip", "type": "float", "v": fenc(x)}, kind="float_ser", x=x)
+        add({"op": "from_value", "v": fenc(x)}, kind="float_datatype", x=x)
+    for _ in range(150 * N):
+        d = g_double_sp(r)
+        a, b = ws(r), ws(r)
+        add({"op": "deser", "types": ["float"], "s": a + double_sp_lex(d) + b}, kind="float_deser", sp=(a, d, b))
+    for x in FLOAT_BAD:
+        add({"op": "deser", "types": ["float"], "s": x}, kind="float_deser", sp=None)
+    for _ in range(150 * N):
+        x = mutate(r, double_sp_lex(g_double_sp(r))[:r.choice([5, 12, 40])], LAX + "nNaAiIfFxXpP")
+        if r.random() < 0.25:
+            x = r.choice(PYWS + WS) + x + r.choice(PYWS + WS)
+        add({"op": "deser", "types": ["float"], "s": x}, kind="float_deser", sp=None)
+
+    # ---------------- enums
+    for k, members in enumerate(ENUMS):
+        for x in ENUM_STRINGS:
+            if r.random() < 0.75 or N > 1:
+                m = r.choice([None, [["n", "urn:a"], ["xs", "http://www.w3.org/2001/XMLSchema"]], [[None, "urn:a"]]]) if k == 7 else None
+                op = {"op": "deser", "types": ["Enum:0"], "enums": [members], "s": x}
+                if m is not None:
+                    op["ns_map"] = m
+                add(op, kind="enum_deser", members=members, m=m)
+        for j, (name, v) in enumerate(members):
+            for m in ([None, [], [["n", "urn:a"]]] if k == 7 else [None]):
+                op = {"op": "roundtrip", "type": "Enum:0", "enums": [members], "v": {"t": "Enum", "v": [0, j]}}
+                if k == 7:
+                    op["ns_map"] = m
+                add(op, kind="enum_ser", members=members, j=j, m=m)
+
     # ---------------- factory: sort_types and deserialize over candidate lists
     pool_strings = ["1", "0", "true", "false", " 1 ", "12", "-7", "+3", "abc", "", "00", "AAAA", "1_0", "١", "ff", "QUJD",
-                    "\xa01", "tr ue", "1.0", "0x1"]
+                    "\xa01", "tr ue", "1.0", "0x1", "1e5", "INF", "NaN", "nan", "1.50", "p:x", "x", "{urn:a}x", "a", "b c", "2", "1_0.5", "Infinity",
+                    ".5", "5.", "-0", "a:b", "é", "1e400", "d"]
     for _ in range(60 * N):
         k = r.choice([0, 1, 2, 2, 3, 3, 4, 5, 6])
         types = [r.choice(TYPE_POOL) for _ in range(k)]
         if r.random() < 0.6:  # sort_types works on distinct classes in practice
             types = list(dict.fromkeys(types))
-        add({"op": "sort_types", "types": types}, kind="sort_types")
+        add({"op": "sort_types", "types": types, "enums": FACTORY_ENUMS}, kind="sort_types")
         s = r.choice(pool_strings)
         fmt = r.choice([None, "base16", "base64"])
-        add({"op": "deser", "types": types, "s": s, "format": fmt}, kind="deserialize", fmt=fmt)
+        nsm = r.choice([None, [], [["p", "urn:a"]], [[None, "urn:d"]]])
+        add({"op": "deser", "types": types, "s": s, "format": fmt, "ns_map": nsm, "enums": FACTORY_ENUMS}, kind="deserialize", fmt=fmt, nsm=nsm)
     res = run_impl("impl_c05.py", ops, timeout=1500)
     ck.cov["evaluations"] = len(ops)
 
@@ -277,7 +650,7 @@ def run(ck: Check):
     for i, (op, m) in enumerate(zip(ops, meta)):
         if m["kind"] == "deserialize":
             srt = res[i - 1]["ok"]
-            base = {"s": op["s"], "format": op.get("format")}
+            base = {"s": op["s"], "format": op.get("format"), "ns_map": op.get("ns_map"), "enums": op.get("enums")}
             pr_ops.append(dict(base, op="deser", types=srt))
             pr_meta.append(("sorted", i))
             for t in dict.fromkeys(op["types"]):
@@ -297,24 +670,48 @@ def run(ck: Check):
     def items_of(kind):
         return [(i, ops[i], res[i], meta[i]) for i in range(len(ops)) if meta[i]["kind"] == kind]
 
+    jobs, cache = [], {}
+
+    def run_batch():
+        live = [j for j in jobs if j[3]]
+        if not live:
+            return
+        defs = "Inductive anycase :=\n" + "\n".join(f"| K{n} (c : {j[1]})" for n, j in enumerate(live)) + "."
+        check = "fun a => match a with " + " | ".join(f"K{n} c => ({j[2]}) c" for n, j in enumerate(live)) + " end"
+        terms, owner = [], []
+        for n, j in enumerate(live):
+            for i, t in enumerate(j[3]):
+                terms.append(f"(K{n} {t})")
+                owner.append((j[0], i))
+        for j in jobs:
+            cache[j[0]] = []
+        for g in coq_bad("c05_batch", "anycase", check, terms, defs=defs):
+            cache[owner[g][0]].append(owner[g][1])
+
+    def bad_indices(tag, ctype, pred, terms):
+        if mode == "collect":
+            jobs.append((tag, ctype, pred, list(terms)))
+            return []
+        if tag in cache:
+            return cache[tag]
+        t0 = time.time()
+        out = coq_bad(f"c05_{tag}", ctype, pred, terms)
+        timings[tag] = round(time.time() - t0, 1)
+        return out
+
     def run_pred(tag, ctype, pred, items, terms):
         if not items:
             return []
-        t0 = time.time()
-        bad = coq_bad(f"c05_{tag}", ctype, pred, terms)
-        timings[tag] = round(time.time() - t0, 1)
-        return [items[i] for i in bad]
+        return [items[i] for i in bad_indices(tag, ctype, pred, terms)]
 
     def multi(tag, ctype, preds, items, terms):
-        """several predicates over the same cases: one combined pass; only if it
-        reports something is each predicate run on the reported cases"""
+        """several predicates over the same cases: one combined evaluation; only if it
+        reports something is each predicate evaluated on the reported cases"""
         out = {p: [] for p in preds}
         if not items:
             return out
         comb = "fun c => " + " && ".join(f"{p} c" for p in preds)
-        t0 = time.time()
-        bad = coq_bad(f"c05_{tag}", ctype, comb, terms)
-        timings[tag] = round(time.time() - t0, 1)
+        bad = bad_indices(tag, ctype, comb, terms)
         if bad:
             sub_items, sub_terms = [items[i] for i in bad], [terms[i] for i in bad]
             for p in preds:
@@ -330,125 +727,336 @@ def run(ck: Check):
     def obs_of(rs, f):
         return "None" if "err" in rs else f"(Some {f(rs['ok'])})"
 
-    # ---------------- bool
-    items = items_of("bool_deser")
-    terms = [f"({cstr(it[1]['s'])}, {obs_of(it[2], lambda v: cbool(v['v']))})" for it in items]
-    distinct |= {("bool", it[1]["s"]) for it in items}
-    for it in run_pred("agree_bool", "str * option bool", "agree_bool_deser", items, terms):
-        ck.failure("corr-bool-deser", f"model and implementation disagree on bool {it[1]['s']!r}: impl={it[2]}", {"op": it[1], "impl": it[2]})
-    sp_items = [it for it in items if it[3]["sp"]]
-    sp_terms = [f"({cstr(it[3]['sp'][0])}, {cstr(it[3]['sp'][1])}, {cstr(it[3]['sp'][2])}, {obs_of(it[2], lambda v: cbool(v['v']))})" for it in sp_items]
-    for it in run_pred("acc_bool", "str * str * str * option bool", "oracle_bool_accepts", sp_items, sp_terms):
-        ck.failure("bool-xsd-valid-not-accepted", f"xs:boolean {it[1]['s']!r} gave {it[2]}", {"op": it[1], "impl": it[2]})
-    items = items_of("bool_ser")
-    terms = [f"({cbool(it[1]['v']['v'])}, {cstr(it[2]['ok'])})" for it in items if "ok" in it[2]]
-    for it in run_pred("agree_bool_ser", "bool * str", "agree_bool_ser", items, terms):
-        ck.failure("corr-bool-ser", f"model and implementation disagree on serialize({it[1]['v']})", {"op": it[1], "impl": it[2]})
-    for it in run_pred("valid_bool_ser", "bool * str", "oracle_bool_ser_valid", items, terms):
-        ck.failure("bool-ser-not-xsd-valid", f"serialize({it[1]['v']}) = {it[2]} is not the xs:boolean form of the value", {"op": it[1], "impl": it[2]})
-    for it in items:
-        if not it[2].get("same"):
-            ck.failure("bool-roundtrip", f"bool {it[1]['v']} -> {it[2]}", {"op": it[1], "impl": it[2]})
+    # The checking code below runs twice.  Pass "collect": every Coq predicate evaluation is
+    # only registered (and reported as "no failures"); then all of them are evaluated in ONE
+    # batch of balanced case files.  Pass "replay": the same code runs again with the batch
+    # results; follow-up classifications of failing cases (rare) are evaluated directly.
+    state = {}
+    for mode in ("collect", "replay"):
+        fail = ck.failure if mode == "replay" else (lambda *a, **k: False)
+        if mode == "replay":
+            t0 = time.time()
+            run_batch()
+            timings["batch"] = round(time.time() - t0, 1)
+        # ---------------- bool
+        items = items_of("bool_deser")
+        terms = [f"({cstr(it[1]['s'])}, {obs_of(it[2], lambda v: cbool(v['v']))})" for it in items]
+        distinct |= {("bool", it[1]["s"]) for it in items}
+        for it in run_pred("agree_bool", "str * option bool", "agree_bool_deser", items, terms):
+            fail("corr-bool-deser", f"model and implementation disagree on bool {it[1]['s']!r}: impl={it[2]}", {"op": it[1], "impl": it[2]})
+        sp_items = [it for it in items if it[3]["sp"]]
+        sp_terms = [f"({cstr(it[3]['sp'][0])}, {cstr(it[3]['sp'][1])}, {cstr(it[3]['sp'][2])}, {obs_of(it[2], lambda v: cbool(v['v']))})" for it in sp_items]
+        for it in run_pred("acc_bool", "str * str * str * option bool", "oracle_bool_accepts", sp_items, sp_terms):
+            fail("bool-xsd-valid-not-accepted", f"xs:boolean {it[1]['s']!r} gave {it[2]}", {"op": it[1], "impl": it[2]})
+        items = items_of("bool_ser")
+        terms = [f"({cbool(it[1]['v']['v'])}, {cstr(it[2]['ok'])})" for it in items if "ok" in it[2]]
+        for it in run_pred("agree_bool_ser", "bool * str", "agree_bool_ser", items, terms):
+            fail("corr-bool-ser", f"model and implementation disagree on serialize({it[1]['v']})", {"op": it[1], "impl": it[2]})
+        for it in run_pred("valid_bool_ser", "bool * str", "oracle_bool_ser_valid", items, terms):
+            fail("bool-ser-not-xsd-valid", f"serialize({it[1]['v']}) = {it[2]} is not the xs:boolean form of the value", {"op": it[1], "impl": it[2]})
+        for it in items:
+            if not it[2].get("same"):
+                fail("bool-roundtrip", f"bool {it[1]['v']} -> {it[2]}", {"op": it[1], "impl": it[2]})
 
-    # ---------------- int
-    items = items_of("int_deser")
-    terms = [f"({cstr(it[1]['s'])}, {obs_of(it[2], lambda v: hexZ(zval(v['v'])))})" for it in items]
-    distinct |= {("int", it[1]["s"]) for it in items}
-    for it in run_pred("agree_int", "str * option Z", "agree_int_deser", items, terms):
-        ck.failure("corr-int-deser", f"model and implementation disagree on int({it[1]['s'][:60]!r}): impl={str(it[2])[:80]}", {"op": it[1], "impl": it[2]})
-    sp_items = [it for it in items if it[3]["sp"]]
-    sp_terms = [f"({cstr(it[3]['sp'][0])}, {sp_term(it[3]['sp'][1], it[3]['sp'][2])}, {cstr(it[3]['sp'][3])}, {obs_of(it[2], lambda v: hexZ(zval(v['v'])))})"
-                for it in sp_items]
-    t_sp = "str * integer_sp * str * option Z"
-    bad = multi("acc_int", t_sp, ["oracle_int_accepts", "guard_int_accepts"], sp_items, sp_terms)
-    for it in bad["oracle_int_accepts"]:
-        ck.failure("int-xsd-valid-not-accepted", f"xs:integer {it[1]['s'][:60]!r} gave {str(it[2])[:80]}", {"op": it[1], "impl": it[2]})
-    for it in bad["guard_int_accepts"][:1]:
-        ck.failure("harness-generator-invalid-spelling", f"generator produced a non-wf integer spelling {it[1]['s'][:40]!r}", {"op": it[1]})
-    ck.cov["int_spellings_beyond_interpreter_digit_limit"] = sum(1 for it in sp_items if len(it[3]["sp"][2]) > 4300)
-    items = items_of("int_ser")
-    terms = [f"({hexZ(it[3]['z'])}, {copt(it[2].get('ok'), cstr)})" for it in items]
-    distinct |= {("int_ser", it[3]["z"]) for it in items}
-    bad = multi("int_ser", "Z * option str", ["agree_int_ser", "oracle_int_ser_valid"], items, terms)
-    for it in bad["agree_int_ser"]:
-        ck.failure("corr-int-ser", f"model and implementation disagree on str(int) of a {len(str(abs(it[3]['z'])))}-digit int", {"op": it[1], "impl": it[2]})
-    for it in bad["oracle_int_ser_valid"]:
-        ck.failure("int-ser-not-xsd-valid", f"serialize(int) = {str(it[2])[:80]} is not the xs:integer form of the value", {"op": it[1], "impl": it[2]})
-    for it in items:
-        if "ok" in it[2] and not it[2].get("same"):
-            ck.failure("int-roundtrip", f"int -> {str(it[2])[:100]}", {"op": it[1], "impl": it[2]})
-    items = [it for it in items_of("int_datatype") if "ok" in it[2]]
-    terms = [f"({hexZ(it[3]['z'])}, {cstr(it[2]['ok'])})" for it in items]
-    for it in run_pred("agree_int_dt", "Z * str", "agree_int_datatype", items, terms):
-        ck.failure("corr-int-datatype", f"model and implementation disagree on DataType.from_value({it[3]['z']}) = {it[2]}", {"op": it[1], "impl": it[2]})
+        # ---------------- int
+        items = items_of("int_deser")
+        terms = [f"({cstr(it[1]['s'])}, {obs_of(it[2], lambda v: hexZ(zval(v['v'])))})" for it in items]
+        distinct |= {("int", it[1]["s"]) for it in items}
+        for it in run_pred("agree_int", "str * option Z", "agree_int_deser", items, terms):
+            fail("corr-int-deser", f"model and implementation disagree on int({it[1]['s'][:60]!r}): impl={str(it[2])[:80]}", {"op": it[1], "impl": it[2]})
+        sp_items = [it for it in items if it[3]["sp"]]
+        sp_terms = [f"({cstr(it[3]['sp'][0])}, {sp_term(it[3]['sp'][1], it[3]['sp'][2])}, {cstr(it[3]['sp'][3])}, {obs_of(it[2], lambda v: hexZ(zval(v['v'])))})"
+                    for it in sp_items]
+        t_sp = "str * integer_sp * str * option Z"
+        bad = multi("acc_int", t_sp, ["oracle_int_accepts", "guard_int_accepts"], sp_items, sp_terms)
+        for it in bad["oracle_int_accepts"]:
+            fail("int-xsd-valid-not-accepted", f"xs:integer {it[1]['s'][:60]!r} gave {str(it[2])[:80]}", {"op": it[1], "impl": it[2]})
+        for it in bad["guard_int_accepts"][:1]:
+            fail("harness-generator-invalid-spelling", f"generator produced a non-wf integer spelling {it[1]['s'][:40]!r}", {"op": it[1]})
+        ck.cov["int_spellings_beyond_interpreter_digit_limit"] = sum(1 for it in sp_items if len(it[3]["sp"][2]) > 4300)
+        items = items_of("int_ser")
+        terms = [f"({hexZ(it[3]['z'])}, {copt(it[2].get('ok'), cstr)})" for it in items]
+        distinct |= {("int_ser", it[3]["z"]) for it in items}
+        bad = multi("int_ser", "Z * option str", ["agree_int_ser", "oracle_int_ser_valid"], items, terms)
+        for it in bad["agree_int_ser"]:
+            fail("corr-int-ser", f"model and implementation disagree on str(int) of a {len(str(abs(it[3]['z'])))}-digit int", {"op": it[1], "impl": it[2]})
+        for it in bad["oracle_int_ser_valid"]:
+            fail("int-ser-not-xsd-valid", f"serialize(int) = {str(it[2])[:80]} is not the xs:integer form of the value", {"op": it[1], "impl": it[2]})
+        for it in items:
+            if "ok" in it[2] and not it[2].get("same"):
+                fail("int-roundtrip", f"int -> {str(it[2])[:100]}", {"op": it[1], "impl": it[2]})
+        items = [it for it in items_of("int_datatype") if "ok" in it[2]]
+        terms = [f"({hexZ(it[3]['z'])}, {cstr(it[2]['ok'])})" for it in items]
+        for it in run_pred("agree_int_dt", "Z * str", "agree_int_datatype", items, terms):
+            fail("corr-int-datatype", f"model and implementation disagree on DataType.from_value({it[3]['z']}) = {it[2]}", {"op": it[1], "impl": it[2]})
 
-    # ---------------- bytes
-    def obytes(rs):
-        return obs_of(rs, lambda v: cbytes(bytes(v["v"])))
+        # ---------------- bytes
+        def obytes(rs):
+            return obs_of(rs, lambda v: cbytes(bytes(v["v"])))
 
-    for kind, fmt in (("hex_deser", "base16"), ("b64_deser", "base64"), ("other_fmt_deser", None)):
-        items = items_of(kind)
-        terms = [f"({copt(it[1].get('format'), cstr)}, {cstr(it[1]['s'])}, {obytes(it[2])})" for it in items]
-        distinct |= {(kind, it[1]["s"], it[1].get("format")) for it in items}
-        for it in run_pred("agree_" + kind, "option str * str * option (list N)", "agree_bytes_deser", items, terms):
-            ck.failure("corr-bytes-deser", f"model and implementation disagree on bytes {it[1]['format']} {it[1]['s']!r}: impl={it[2]}", {"op": it[1], "impl": it[2]})
-    items = [it for it in items_of("hex_deser") if it[3].get("sp")]
-    terms = [f"({cstr(it[3]['sp'][0])}, {cstr(it[3]['sp'][1])}, {cstr(it[3]['sp'][2])}, {obytes(it[2])})" for it in items]
-    for it in run_pred("acc_hex", "str * str * str * option (list N)", "oracle_hex_accepts", items, terms):
-        ck.failure("hex-xsd-valid-not-accepted", f"xs:hexBinary {it[1]['s']!r} gave {it[2]}", {"op": it[1], "impl": it[2]})
-    ck.cov["hex_valid_literals"] = count_true("val_hex", "str * str * str * option (list N)", "is_valid_hex", items, terms)
-    items = items_of("b64_deser")
-    terms = [f"({cstr(it[1]['s'])}, {obytes(it[2])})" for it in items]
-    for it in run_pred("acc_b64", "str * option (list N)", "oracle_b64_accepts", items, terms):
-        ck.failure("base64-xsd-valid-not-accepted", f"xs:base64Binary {it[1]['s']!r} gave {it[2]}", {"op": it[1], "impl": it[2]})
-    ck.cov["base64_valid_literals"] = count_true("val_b64", "str * option (list N)", "is_valid_b64", items, terms)
-    items = items_of("bytes_ser")
-    kinds = {"bytes": 0, "XmlHexBinary": 1, "XmlBase64Binary": 2}
-    terms = [f"({kinds[it[3]['vt']]}%nat, {copt(it[3]['fmt'], cstr)}, {cbytes(it[3]['b'])}, {copt(it[2].get('ok'), cstr)})" for it in items]
-    distinct |= {("bytes_ser", it[3]["b"], it[3]["fmt"], it[3]["vt"]) for it in items}
-    t_bs = "nat * option str * list N * option str"
-    for it in run_pred("agree_bytes_ser", t_bs, "agree_bytes_ser", items, terms):
-        ck.failure("corr-bytes-ser", f"model and implementation disagree on serialize({it[3]['b']!r}, format={it[3]['fmt']}): impl={it[2]}", {"op": it[1], "impl": it[2]})
-    for it in run_pred("valid_bytes_ser", t_bs, "oracle_bytes_ser_valid", items, terms):
-        ck.failure("bytes-ser-not-xsd-valid", f"serialize({it[3]['b']!r}, format={it[3]['fmt']}) = {it[2]} is not a valid literal of the value", {"op": it[1], "impl": it[2]})
-    # round trip on the implementation itself
-    rt = [(it, {"op": "deser", "types": ["bytes"], "s": it[2]["ok"],
-                "format": it[3]["fmt"] or ("base16" if it[3]["vt"] == "XmlHexBinary" else "base64")}) for it in items if "ok" in it[2]]
-    rt_res = run_impl("impl_c05.py", [o for _, o in rt])
-    ck.cov["evaluations"] += len(rt)
-    for (it, o), rs in zip(rt, rt_res):
-        if it[3]["fmt"] == "base64" and it[3]["vt"] == "XmlHexBinary":
-            continue  # the value's class wins over the format: hex text, read back as base64 is a different question
-        if "ok" not in rs or bytes(rs["ok"]["v"]) != it[3]["b"]:
-            ck.failure("bytes-roundtrip", f"bytes {it[3]['b']!r} -> {o['s']!r} -> {rs}", {"op": it[1], "text": o["s"], "impl": rs})
+        for kind, fmt in (("hex_deser", "base16"), ("b64_deser", "base64"), ("other_fmt_deser", None)):
+            items = items_of(kind)
+            terms = [f"({copt(it[1].get('format'), cstr)}, {cstr(it[1]['s'])}, {obytes(it[2])})" for it in items]
+            distinct |= {(kind, it[1]["s"], it[1].get("format")) for it in items}
+            for it in run_pred("agree_" + kind, "option str * str * option (list N)", "agree_bytes_deser", items, terms):
+                fail("corr-bytes-deser", f"model and implementation disagree on bytes {it[1]['format']} {it[1]['s']!r}: impl={it[2]}", {"op": it[1], "impl": it[2]})
+        items = [it for it in items_of("hex_deser") if it[3].get("sp")]
+        terms = [f"({cstr(it[3]['sp'][0])}, {cstr(it[3]['sp'][1])}, {cstr(it[3]['sp'][2])}, {obytes(it[2])})" for it in items]
+        for it in run_pred("acc_hex", "str * str * str * option (list N)", "oracle_hex_accepts", items, terms):
+            fail("hex-xsd-valid-not-accepted", f"xs:hexBinary {it[1]['s']!r} gave {it[2]}", {"op": it[1], "impl": it[2]})
+        ck.cov["hex_valid_literals"] = count_true("val_hex", "str * str * str * option (list N)", "is_valid_hex", items, terms)
+        items = items_of("b64_deser")
+        terms = [f"({cstr(it[1]['s'])}, {obytes(it[2])})" for it in items]
+        for it in run_pred("acc_b64", "str * option (list N)", "oracle_b64_accepts", items, terms):
+            fail("base64-xsd-valid-not-accepted", f"xs:base64Binary {it[1]['s']!r} gave {it[2]}", {"op": it[1], "impl": it[2]})
+        ck.cov["base64_valid_literals"] = count_true("val_b64", "str * option (list N)", "is_valid_b64", items, terms)
+        items = items_of("bytes_ser")
+        kinds = {"bytes": 0, "XmlHexBinary": 1, "XmlBase64Binary": 2}
+        terms = [f"({kinds[it[3]['vt']]}%nat, {copt(it[3]['fmt'], cstr)}, {cbytes(it[3]['b'])}, {copt(it[2].get('ok'), cstr)})" for it in items]
+        distinct |= {("bytes_ser", it[3]["b"], it[3]["fmt"], it[3]["vt"]) for it in items}
+        t_bs = "nat * option str * list N * option str"
+        for it in run_pred("agree_bytes_ser", t_bs, "agree_bytes_ser", items, terms):
+            fail("corr-bytes-ser", f"model and implementation disagree on serialize({it[3]['b']!r}, format={it[3]['fmt']}): impl={it[2]}", {"op": it[1], "impl": it[2]})
+        for it in run_pred("valid_bytes_ser", t_bs, "oracle_bytes_ser_valid", items, terms):
+            fail("bytes-ser-not-xsd-valid", f"serialize({it[3]['b']!r}, format={it[3]['fmt']}) = {it[2]} is not a valid literal of the value", {"op": it[1], "impl": it[2]})
+        # round trip on the implementation itself
+        rt = [(it, {"op": "deser", "types": ["bytes"], "s": it[2]["ok"],
+                    "format": it[3]["fmt"] or ("base16" if it[3]["vt"] == "XmlHexBinary" else "base64")}) for it in items if "ok" in it[2]]
+        if mode == "collect":
+            state["rt_res"] = run_impl("impl_c05.py", [o for _, o in rt])
+            ck.cov["evaluations"] += len(rt)
+        rt_res = state["rt_res"]
+        for (it, o), rs in zip(rt, rt_res):
+            if it[3]["fmt"] == "base64" and it[3]["vt"] == "XmlHexBinary":
+                continue  # the value's class wins over the format: hex text, read back as base64 is a different question
+            if "ok" not in rs or bytes(rs["ok"]["v"]) != it[3]["b"]:
+                fail("bytes-roundtrip", f"bytes {it[3]['b']!r} -> {o['s']!r} -> {rs}", {"op": it[1], "text": o["s"], "impl": rs})
 
-    # ---------------- factory
-    items = [it for it in items_of("sort_types") if "ok" in it[2]]
-    terms = [f"({clist(it[1]['types'], ty_term, 'pytype')}, {clist(it[2]['ok'], ty_term, 'pytype')})" for it in items]
-    distinct |= {("sort", tuple(it[1]["types"])) for it in items}
-    for it in run_pred("agree_sort", "list pytype * list pytype", "agree_sort_types", items, terms):
-        ck.failure("corr-sort-types", f"model and implementation disagree on sort_types({it[1]['types']}) = {it[2]}", {"op": it[1], "impl": it[2]})
-    items = items_of("deserialize")
-    terms = [f"({kw_term(it[3]['fmt'])}, {cstr(it[1]['s'])}, {clist(it[1]['types'], ty_term, 'pytype')}, {obs_of(it[2], value_term)})" for it in items]
-    distinct |= {("deserialize", it[1]["s"], tuple(it[1]["types"]), it[3]["fmt"]) for it in items}
-    for it in run_pred("agree_deserialize", "kwargs * str * list pytype * option value", "agree_deserialize", items, terms):
-        ck.failure("corr-deserialize", f"model and implementation disagree on deserialize({it[1]['s']!r}, {it[1]['types']}, format={it[3]['fmt']}): impl={it[2]}", {"op": it[1], "impl": it[2]})
-    # priority: result over the sorted candidates = the first accepting candidate in priority order
-    by_i = {}
-    for pm, po, prs in zip(pr_meta, pr_ops, pr_res):
-        d = by_i.setdefault(pm[1], {"single": [], "sorted": None, "op": None})
-        if pm[0] == "sorted":
-            d["sorted"], d["op"] = prs, po
-        else:
-            d["single"].append((pm[2], prs))
-    pitems = sorted(by_i.items())
-    terms = []
-    for i, d in pitems:
-        singles = clist(d["single"], lambda p: f"({ty_term(p[0])}, {obs_of(p[1], value_term)})", "(pytype * option value)")
-        terms.append(f"({singles}, {obs_of(d['sorted'], value_term)})")
-    for i, d in run_pred("priority", "list (pytype * option value) * option value", "oracle_priority", pitems, terms):
-        ck.failure("priority-order-not-respected", f"deserialize({d['op']['s']!r}, sorted {d['op']['types']}) = {d['sorted']} but singly: {d['single']}",
-                   {"op": d["op"], "single": d["single"], "impl": d["sorted"]})
+        # ---------------- Decimal
+        def odec(rs):
+            return obs_of(rs, lambda v: pydec_term(v["v"]))
+
+        items = items_of("dec_deser")
+        terms = [f"({cstr(it[1]['s'])}, {odec(it[2])})" for it in items]
+        distinct |= {("dec", it[1]["s"]) for it in items}
+        for it in run_pred("agree_dec", "str * option pydec", "agree_dec_deser", items, terms):
+            fail("corr-decimal-deser", f"model and implementation disagree on Decimal({it[1]['s'][:60]!r}): impl={str(it[2])[:100]}", {"op": it[1], "impl": it[2]})
+        sp_items = [it for it in items if it[3]["sp"]]
+        sp_terms = [f"({cstr(it[3]['sp'][0])}, {dec_sp_term(it[3]['sp'][1])}, {cstr(it[3]['sp'][2])}, {odec(it[2])})" for it in sp_items]
+        t_dsp = "str * decimal_sp * str * option pydec"
+        bad = multi("acc_dec", t_dsp, ["oracle_dec_accepts", "guard_dec_accepts"], sp_items, sp_terms)
+        for it in bad["oracle_dec_accepts"]:
+            fail("decimal-xsd-valid-not-accepted", f"xs:decimal {it[1]['s'][:60]!r} gave {str(it[2])[:100]}", {"op": it[1], "impl": it[2]})
+        for it in bad["guard_dec_accepts"][:1]:
+            fail("harness-generator-invalid-spelling", f"generator produced a non-wf decimal spelling {it[1]['s'][:40]!r}", {"op": it[1]})
+        items = [it for it in items_of("dec_ser") if "ok" in it[2]]
+        terms = [f"({pydec_term(it[3]['v'])}, {cstr(it[2]['ok'])})" for it in items]
+        distinct |= {("dec_ser", tuple(it[3]["v"])) for it in items}
+        corr_bad = run_pred("agree_dec_ser", "pydec * str", "agree_dec_ser", items, terms)
+        for it in corr_bad:
+            fail("corr-decimal-ser", f"model and implementation disagree on serialize(Decimal{it[3]['v']}) = {it[2]['ok'][:80]!r}", {"op": it[1], "impl": it[2]})
+        corr_ids = {it[0] for it in corr_bad}
+        inv = run_pred("valid_dec_ser", "pydec * str", "oracle_dec_ser_valid", items, terms)
+        if inv:
+            inv_terms = [f"({pydec_term(it[3]['v'])}, {cstr(it[2]['ok'])})" for it in inv]
+            finite = {it[0] for it in inv} - {it[0] for it in run_pred("fin_dec", "pydec * str", "dec_value_finite", inv, inv_terms)}
+            for it in inv:
+                if it[0] in finite or it[0] in corr_ids:
+                    fail("decimal-ser-not-xsd-valid", f"serialize(Decimal{it[3]['v']}) = {it[2]['ok'][:80]!r} is not the xs:decimal form of the value", {"op": it[1], "impl": it[2]})
+                else:  # the guard clause dec_finite: reproduced by the faithful model (correspondence held)
+                    fail("decimal-nonfinite-serialized", f"serialize(Decimal{it[3]['v']}) = {it[2]['ok']!r}, which xs:decimal does not have", {"op": it[1], "impl": it[2]})
+        for it in items_of("dec_ser"):
+            if "ok" in it[2] and not it[2].get("same") and it[3]["v"][2] in ("n", "N", "F"):
+                fail("decimal-roundtrip", f"Decimal{it[3]['v']} -> {str(it[2])[:120]}", {"op": it[1], "impl": it[2]})
+            if "ok" in it[2] and not it[2].get("eq") and it[3]["v"][2] not in ("n", "N"):
+                fail("decimal-roundtrip", f"Decimal{it[3]['v']} -> {str(it[2])[:120]}", {"op": it[1], "impl": it[2]})
+            if "ok" in it[2] and isinstance(it[3]["v"][2], int) and it[3]["v"][2] <= 0 and (it[2].get("back") or {}).get("v") != it[3]["v"]:
+                fail("decimal-roundtrip-exact", f"Decimal{it[3]['v']} -> {str(it[2])[:120]} (exponent <= 0: digits must be preserved)", {"op": it[1], "impl": it[2]})
+
+        # ---------------- QName
+        items = items_of("qname_deser")
+        terms = [f"({cstr(it[1]['s'])}, {nsmap_term(it[3]['m'])}, {obs_of(it[2], lambda v: cstr(v['v']))})" for it in items]
+        distinct |= {("qname", it[1]["s"], json.dumps(it[3]["m"])) for it in items}
+        corr_bad = run_pred("agree_qname", "str * option nsmap * option str", "agree_qname_deser", items, terms)
+        for it in corr_bad:
+            fail("corr-qname-deser", f"model and implementation disagree on QName {it[1]['s']!r} ns_map={it[3]['m']}: impl={it[2]}", {"op": it[1], "impl": it[2]})
+        corr_ids = {it[0] for it in corr_bad}
+        sp_items = [it for it in items if it[3]["sp"]]
+        sp_terms = [f"({cstr(it[3]['sp'][0])}, (mk_qname_sp {copt(it[3]['sp'][1], cstr)} {cstr(it[3]['sp'][2])}), {cstr(it[3]['sp'][3])}, "
+                    f"{nsmap_term_plain(it[3]['m'])}, {obs_of(it[2], lambda v: cstr(v['v']))})" for it in sp_items]
+        t_qsp = "str * qname_sp * str * nsmap * option str"
+        rej = run_pred("acc_qname", t_qsp, "oracle_qname_accepts", sp_items, sp_terms)
+        if rej:
+            rej_terms = [sp_terms[sp_items.index(it)] for it in rej]
+            in_guard = {it[0] for it in rej} - {it[0] for it in run_pred("guard_qname", t_qsp, "qname_case_py_guard", rej, rej_terms)}
+            for it in rej:
+                if it[0] in in_guard or it[0] in corr_ids:
+                    fail("qname-xsd-valid-not-accepted", f"xs:QName {it[1]['s']!r} with ns_map={it[3]['m']} gave {it[2]}", {"op": it[1], "impl": it[2]})
+                else:  # clause 3: a name character XML allows and is_ncname rejects; the model reproduces it
+                    fail("qname-ncname-char-rejected", f"xs:QName {it[1]['s']!r} (ns_map={it[3]['m']}) rejected: {it[2]}", {"op": it[1], "impl": it[2]})
+        ck.cov["qname_valid_literals"] = count_true("val_qname", t_qsp, "is_valid_qname_case", sp_items, sp_terms)
+        items = items_of("qname_ser2")
+        terms = [f"({cstr(qtext(it[3]['uri'], it[3]['local']))}, {nsmap_term(it[3]['m'])}, "
+                 + ("None" if "ok" not in it[2] else f"(Some ({cstr(it[2]['ok'])}, {nsmap_term(it[2].get('ns_map'))}))") + ")" for it in items]
+        distinct |= {("qname_ser", it[3]["uri"], it[3]["local"], json.dumps(it[3]["m"])) for it in items}
+        corr_bad = run_pred("agree_qname_ser", "str * option nsmap * option (str * option nsmap)", "agree_qname_ser", items, terms)
+        for it in corr_bad:
+            fail("corr-qname-ser", f"model and implementation disagree on serialize(QName {qtext(it[3]['uri'], it[3]['local'])!r}, ns_map={it[3]['m']}): impl={it[2]}", {"op": it[1], "impl": it[2]})
+        ser_corr_ids = {(it[3]["uri"], it[3]["local"], json.dumps(it[3]["m"])) for it in corr_bad}
+        # round trip on the implementation, classified by the guard clauses of qname_roundtrip (evaluated in Coq)
+        items = [it for it in items_of("qname_ser")]
+        failing = [it for it in items if not it[2].get("same")]
+        if failing:
+            t_rt = "option str * str * option nsmap"
+            f_terms = [f"({copt(it[3]['uri'], cstr)}, {cstr(it[3]['local'])}, {nsmap_term(it[3]['m'])})" for it in failing]
+
+            def holds(tag, pred):
+                return {it[0] for it in failing} - {it[0] for it in run_pred(tag, t_rt, pred, failing, f_terms)}
+            inputs_ok, clark_ok, default_ok, model_fails = (holds("rt_in", "qname_rt_inputs"), holds("rt_clark", "qname_rt_clark_ok"),
+                                                            holds("rt_dflt", "qname_rt_default_ok"), holds("rt_model", "qname_model_rt_fails"))
+            excluded = 0
+            for it in failing:
+                what = f"QName {qtext(it[3]['uri'], it[3]['local'])!r} ns_map={it[3]['m']} -> {str(it[2])[:160]}"
+                rp = {"op": it[1], "impl": it[2]}
+                if it[0] not in inputs_ok:
+                    excluded += 1          # not a QName value / not a well-formed prefix map: outside the quantifier
+                elif it[0] not in model_fails:
+                    fail("corr-qname-roundtrip", "the implementation fails a round trip the model completes: " + what, rp)
+                elif it[0] not in clark_ok:
+                    fail("qname-clark-uri-rejected", what, rp)
+                elif it[0] not in default_ok:
+                    fail("qname-no-namespace-under-default-ns", what, rp)
+                else:
+                    fail("qname-roundtrip", what, rp)
+            ck.cov["qname_roundtrip_inputs_outside_quantifier"] = excluded
+        # serialize with a prefix map gives a valid xs:QName literal denoting the value under the resulting bindings
+        items = [it for it in items_of("qname_ser2") if "ok" in it[2] and it[3]["m"] is not None]
+        t_rt = "option str * str * option nsmap"
+        terms = [f"({copt(it[3]['uri'], cstr)}, {cstr(it[3]['local'])}, {nsmap_term_plain(it[3]['m'])}, {cstr(it[2]['ok'])}, {nsmap_term_plain(it[2]['ns_map'])})"
+                 for it in items]
+        inv = run_pred("valid_qname_ser", "option str * str * nsmap * str * nsmap", "oracle_qname_ser_valid_g", items, terms)
+        if inv:
+            g_terms = [f"({copt(it[3]['uri'], cstr)}, {cstr(it[3]['local'])}, {nsmap_term(it[3]['m'])})" for it in inv]
+            default_ok = {it[0] for it in inv} - {it[0] for it in run_pred("sv_dflt", t_rt, "qname_rt_default_ok", inv, g_terms)}
+            for it in inv:
+                what = f"serialize(QName {qtext(it[3]['uri'], it[3]['local'])!r}, ns_map={it[3]['m']}) = {it[2]['ok']!r} with {it[2]['ns_map']}"
+                if it[0] not in default_ok and (it[3]["uri"], it[3]["local"], json.dumps(it[3]["m"])) not in ser_corr_ids:
+                    fail("qname-no-namespace-under-default-ns", what + " denotes a name in the default namespace", {"op": it[1], "impl": it[2]})
+                else:
+                    fail("qname-ser-not-xsd-valid", what + " is not an xs:QName literal of the value", {"op": it[1], "impl": it[2]})
+
+        # ---------------- float (CPythonFloat hypotheses sampled; text side against the model)
+        viol = {"roundtrip": 0, "shape": 0, "norm": 0}
+        items = items_of("float_facts")
+        for it in items:
+            x, f = it[3]["x"], it[2].get("ok")
+            if f is None:
+                fail("float-facts-error", f"{it[1]} -> {it[2]}", {"op": it[1], "impl": it[2]})
+                continue
+            if x == x and (f["back"] != x.hex() if abs(x) != float("inf") else float(f["repr"]) != x):
+                viol["roundtrip"] += 1
+                fail("cpython-float-hypothesis-repr-roundtrip", f"float(repr(x)) != x for {x.hex()}", {"op": it[1], "impl": it[2]})
+            if x == x and abs(x) != float("inf") and f["norm_back"] != x.hex():
+                viol["norm"] += 1
+                fail("cpython-float-hypothesis-normalised", f"float(repr(x).upper().replace('E+','E')) != x for {x.hex()}", {"op": it[1], "impl": it[2]})
+        fin = [it for it in items if it[2].get("ok") and it[3]["x"] == it[3]["x"] and abs(it[3]["x"]) != float("inf")]
+        terms = [cstr(it[2]["ok"]["repr"]) for it in fin]
+        for it in run_pred("repr_shape", "str", "repr_shape_ok", fin, terms):
+            viol["shape"] += 1
+            fail("cpython-float-hypothesis-repr-shape", f"repr({it[3]['x'].hex()}) = {it[2]['ok']['repr']!r} is not of the assumed shape", {"op": it[1], "impl": it[2]})
+        ck.cov["cpython_float_hypotheses_sampled"] = {"bit_patterns": len(items), "violations": viol}
+        items = [it for it in items_of("float_ser") if "ok" in it[2]]
+        terms = [cstr(it[2]["ok"]) for it in items]
+        distinct |= {("float_ser", it[3]["x"].hex() if it[3]["x"] == it[3]["x"] else "nan") for it in items}
+        for it in run_pred("float_lex", "str", "oracle_double_lexical", items, terms):
+            fail("float-ser-not-xsd-valid", f"serialize({it[3]['x']!r}) = {it[2]['ok']!r} is not an xs:double literal", {"op": it[1], "impl": it[2]})
+        for it in items_of("float_ser"):
+            if not it[2].get("same"):
+                fail("float-roundtrip", f"float {it[3]['x']!r} -> {it[2]}", {"op": it[1], "impl": it[2]})
+        items = items_of("float_deser")
+        readings = []
+        for it in items:
+            rd = None
+            if "ok" in it[2]:
+                rd = float_reading(it[1]["s"])
+                got = it[2]["ok"]["v"]
+                exp = reading_round(rd)
+                exp_s = exp.hex() if exp == exp and abs(exp) != float("inf") else repr(exp)
+                if got != exp_s:
+                    fail("cpython-float-hypothesis-correct-rounding", f"float({it[1]['s'][:60]!r}) = {got}, the correctly rounded value of the text is {exp_s}",
+                               {"op": it[1], "impl": it[2]})
+            readings.append(rd)
+        terms = [f"({cstr(it[1]['s'])}, {fsyn_term(rd)})" for it, rd in zip(items, readings)]
+        distinct |= {("float", it[1]["s"]) for it in items}
+        for it in run_pred("agree_float", "str * option fsyn", "agree_float_syntax", items, terms):
+            fail("corr-float-syntax", f"model and implementation disagree on float({it[1]['s'][:60]!r}): impl={it[2]}", {"op": it[1], "impl": it[2]})
+        sp_items = [it for it in items if it[3]["sp"]]
+        sp_terms = [f"({cstr(it[3]['sp'][0])}, {double_sp_term(it[3]['sp'][1])}, {cstr(it[3]['sp'][2])})" for it in sp_items]
+        for it in run_pred("acc_float", "str * double_sp * str", "oracle_float_accepts", sp_items, sp_terms):
+            fail("corr-float-accepts", f"the model does not read xs:double {it[1]['s'][:60]!r} as its value", {"op": it[1], "impl": it[2]})
+        for it in sp_items:
+            if "ok" not in it[2]:
+                fail("float-xsd-valid-not-accepted", f"xs:double {it[1]['s'][:60]!r} gave {it[2]}", {"op": it[1], "impl": it[2]})
+
+        # ---------------- enums
+        items = items_of("enum_deser")
+
+        def member_idx(it):
+            if "err" in it[2]:
+                return "None"
+            return f"(Some {[m[0] for m in it[3]['members']].index(it[2]['ok']['v'][1])}%nat)"
+        terms = [f"({nsmap_term(it[3]['m'])}, {enum_def_term(it[3]['members'])}, {cstr(it[1]['s'])}, {member_idx(it)})" for it in items]
+        distinct |= {("enum", json.dumps(it[3]["members"]), it[1]["s"]) for it in items}
+        for it in run_pred("agree_enum", "option nsmap * enum_def * str * option nat", "agree_enum_deser", items, terms):
+            fail("corr-enum-deser", f"model and implementation disagree on enum {it[3]['members']} {it[1]['s']!r}: impl={it[2]}", {"op": it[1], "impl": it[2]})
+        items = items_of("enum_ser")
+        terms = [f"({nsmap_term(it[3]['m'])}, {evalue_term(it[3]['members'][it[3]['j']][1])}, {copt(it[2].get('ok'), cstr)})" for it in items]
+        corr_bad = run_pred("agree_enum_ser", "option nsmap * evalue * option str", "agree_enum_ser", items, terms)
+        for it in corr_bad:
+            fail("corr-enum-ser", f"model and implementation disagree on serialize of member {it[3]['members'][it[3]['j']]}: impl={it[2]}", {"op": it[1], "impl": it[2]})
+        corr_ids = {it[0] for it in corr_bad}
+        for it in items:
+            name, v = it[3]["members"][it[3]["j"]]
+            what = f"enum member {name} = {v} -> {it[2]}"
+            if it[2].get("same") or it[0] in corr_ids:
+                continue
+            if "err" in it[2] and v["t"] == "tuple":
+                fail("enum-tuple-value-not-serializable", what, {"op": it[1], "impl": it[2]})
+            elif v["t"] == "str" and v["v"] != v["v"].strip():
+                fail("enum-str-value-outer-whitespace", what, {"op": it[1], "impl": it[2]})
+            else:
+                fail("enum-roundtrip", what, {"op": it[1], "impl": it[2]})
+
+        # ---------------- factory
+        items = [it for it in items_of("sort_types") if "ok" in it[2]]
+        terms = [f"({clist(it[1]['types'], ty_term, 'pytype')}, {clist(it[2]['ok'], ty_term, 'pytype')})" for it in items]
+        distinct |= {("sort", tuple(it[1]["types"])) for it in items}
+        for it in run_pred("agree_sort", "list pytype * list pytype", "agree_sort_types", items, terms):
+            fail("corr-sort-types", f"model and implementation disagree on sort_types({it[1]['types']}) = {it[2]}", {"op": it[1], "impl": it[2]})
+        items = items_of("deserialize")
+        env_term = clist(FACTORY_ENUMS, enum_def_term, "enum_def")
+        terms = [f"({kw_term(it[3]['fmt'], it[3]['nsm'])}, {env_term}, {cstr(it[1]['s'])}, {clist(it[1]['types'], ty_term, 'pytype')}, "
+                 f"{obs_of(it[2], lambda v: value_term(v, it[1]['s'], FACTORY_ENUMS))})" for it in items]
+        distinct |= {("deserialize", it[1]["s"], tuple(it[1]["types"]), it[3]["fmt"]) for it in items}
+        for it in run_pred("agree_deserialize", "kwargs * enum_env * str * list pytype * option value", "agree_deserialize", items, terms):
+            fail("corr-deserialize", f"model and implementation disagree on deserialize({it[1]['s']!r}, {it[1]['types']}, format={it[3]['fmt']}): impl={it[2]}", {"op": it[1], "impl": it[2]})
+        # priority: result over the sorted candidates = the first accepting candidate in priority order
+        by_i = {}
+        for pm, po, prs in zip(pr_meta, pr_ops, pr_res):
+            d = by_i.setdefault(pm[1], {"single": [], "sorted": None, "op": None})
+            if pm[0] == "sorted":
+                d["sorted"], d["op"] = prs, po
+            else:
+                d["single"].append((pm[2], prs))
+        pitems = sorted(by_i.items())
+        terms = []
+        for i, d in pitems:
+            vt = lambda v, d=d: value_term(v, d["op"]["s"], FACTORY_ENUMS)  # noqa: E731
+            singles = clist(d["single"], lambda p: f"({ty_term(p[0])}, {obs_of(p[1], vt)})", "(pytype * option value)")
+            terms.append(f"({singles}, {obs_of(d['sorted'], vt)})")
+        for i, d in run_pred("priority", "list (pytype * option value) * option value", "oracle_priority", pitems, terms):
+            fail("priority-order-not-respected", f"deserialize({d['op']['s']!r}, sorted {d['op']['types']}) = {d['sorted']} but singly: {d['single']}",
+                       {"op": d["op"], "single": d["single"], "impl": d["sorted"]})
 
     ck.cov["distinct_nontrivial"] = len(distinct)
     ck.cov["rule"] = ("distinct (operation, input) pairs, each reaching a modelled converter: XSD-valid spellings (all sign/zero/"
